@@ -239,6 +239,12 @@ F32 = lambda *v: struct.pack("<%df" % len(v), *v)  # noqa
 I32 = lambda *v: struct.pack("<%di" % len(v), *v)  # noqa
 
 
+def specs_mix(i):
+    from ..specs import mix
+
+    return mix(12345, i) >> 11
+
+
 def _readers():
     """name -> reader(item bytes) -> text decoded by the library at that site"""
     import io as _io
@@ -366,6 +372,15 @@ def run_sites(ctx, case):
                 i = next((k for k in range(min(len(back), len(s))) if back[k] != s[k]), min(len(back), len(s)))
                 ctx.fail(f"{site}/read-back-differs", f"{site}: text of {len(s)} chars reads back differently (first difference at char {i}: "
                                                       f"{back[i:i + 1]!r} vs {s[i:i + 1]!r}, lengths {len(back)} vs {len(s)})")
+            # read side of the same site with arbitrary bytes behind the terminator (what BTS software leaves there)
+            enc = cp1252.encode(s)
+            if len(enc) < w - 1:
+                tail = bytes((specs_mix(len(s) * 131 + i) % 255) + 1 for i in range(w - len(enc) - 1))
+                ok, back2 = ctx.must(lambda: _readers()[site](expected(enc + b"\x00" + tail)), f"{site}/read-garbage-tail",
+                                     f"{site}: decoding an item whose text field has garbage after the terminator")
+                if ok and back2 != s:
+                    ctx.fail(f"{site}/read-not-cut-at-terminator", f"{site}: text of {len(s)} chars followed by NUL and garbage reads back as {len(back2)} chars "
+                                                                  f"({back2[:20]!r}...) instead of {s[:20]!r}")
             if out != want:
                 ctx.fail(f"{site}/wrong-bytes", f"{site}: text of {len(s)} chars: item bytes differ from the layout "
                                                 f"(len {len(out)} vs {len(want)}; first diff at "
